@@ -11,7 +11,7 @@ of them, and a final pass never reports dependencies):
 """
 import itertools
 
-from mirsym.core import Violation, PathEnd
+from mirsym.core import Violation, PathEnd, BoundExceeded
 from mirsym.interp import Interp
 from mirsym.models_env import Env
 from mirsym.values import *
@@ -30,8 +30,11 @@ def src_path(i):
 
 class World:
     def __init__(self, m, ctx, n, inputs, acyclic_only=False, allow_self=True, fail_budget=0, recursive=False, mode='Build',
-                 subdir=False, max_deps=None):
+                 subdir=False, max_deps=None, threads=4, dup_deps=False):
         self.m = m
+        self.threads = threads
+        self.dup_deps = dup_deps
+        self.reported = {}        # i -> dependency list as reported (may name a dependency twice: `include x` twice, `after x` + `include x`)
         self.ctx = ctx
         self.n = n
         self.inputs = inputs
@@ -125,7 +128,15 @@ class World:
             self.first_passes[i] = self.first_passes.get(i, 0) + 1
             ds = self.choose_deps(i)
             if ds and self.mode != 'Clean':
-                deps = VecV(tuple(StructV('AbsPath', (StrV(tuple(BASE)), StrV(tuple(src_path(j))))) for j in ds))
+                rep = self.reported.get(i)
+                if rep is None:
+                    rep = list(ds)
+                    if self.dup_deps:
+                        k = ctx.choose(len(ds) + 1, 'dup%d' % i)
+                        if k > 0:
+                            rep = rep + [ds[k - 1]]          # the last entry repeats an earlier one
+                    self.reported[i] = rep
+                deps = VecV(tuple(StructV('AbsPath', (StrV(tuple(BASE)), StrV(tuple(src_path(j))))) for j in rep))
                 self.events.append(('hasdeps', i, tuple(ds)))
                 return ok(EnumV('PpResult', 'HasDeps', PpResult.index('HasDeps'), (f, deps)))
         # final pass: every dependency must be final already (C02)
@@ -142,7 +153,7 @@ class World:
     def data(self):
         return {'op': 'sched', 'n': self.n, 'inputs': list(self.inputs), 'deps': {str(k): v for k, v in self.deps.items()},
                 'events': list(self.events), 'failed': list(self.failed), 'mode': self.mode, 'recursive': getattr(self, 'recursive', False),
-                'subdir': self.subdir}
+                'subdir': self.subdir, 'threads': self.threads, 'reported': {str(k): v for k, v in self.reported.items()}}
 
 
 def mk_config(m, inputs, mode, recursive=False, threads=4):
@@ -166,9 +177,16 @@ def run_coordinator(m, ctx, w, recursive=False):
     env.add_file(b'/bin/sh', b'')
     it.overrides[(None, 'preprocess')] = w.preprocess
     run = m.find_method('Txtpp', 'run')
-    cfg = mk_config(m, w.inputs, w.mode, recursive)
+    cfg = mk_config(m, w.inputs, w.mode, recursive, w.threads)
     try:
         r = it.call_mir(run, [cfg])
+    except BoundExceeded as b:
+        # a loop inside run() that does not end within the interpreter's loop bound: reported as a hang, to be confirmed
+        # (or refuted: then the result is inconclusive, never a pass) by the native replay under a timeout
+        d = w.data()
+        d['sched_trace'] = list(env.sched_trace)
+        d['model'] = {}
+        raise Violation('hang: %s' % b, d)
     except Violation as v:
         if v.msg.startswith('hang'):
             d = w.data()
@@ -201,8 +219,9 @@ def requested_files(w):
 
 
 def h_sched(m, ctx, n, inputs, acyclic_only=False, allow_self=True, fail_budget=0, mode='Build', recursive=False, subdir=False,
-            max_deps=None, check_panics=False):
-    w = World(m, ctx, n, inputs, acyclic_only, allow_self, fail_budget, mode=mode, subdir=subdir, max_deps=max_deps)
+            max_deps=None, check_panics=False, threads=4, dup_deps=False):
+    w = World(m, ctx, n, inputs, acyclic_only, allow_self, fail_budget, mode=mode, subdir=subdir, max_deps=max_deps, threads=threads,
+              dup_deps=dup_deps)
     w.recursive = recursive
     it, env, r = run_coordinator(m, ctx, w, recursive)
     ok_ = (r.idx == 0)
@@ -297,6 +316,10 @@ def jobs_c02(tier):
     js = jobs_graph(tier, False, 'dag')
     js.append({'name': 'dag n=2 recursive dir scan with subdir', 'harness': (H, 'h_sched'),
                'params': {'n': 2, 'inputs': ['.'], 'acyclic_only': True, 'recursive': True, 'subdir': True}})
+    js.append({'name': 'dag n=3 dependency named twice', 'harness': (H, 'h_sched'),
+               'params': {'n': 3, 'inputs': ['F0.txtpp'], 'acyclic_only': True, 'dup_deps': True}, 'split': 8})
+    js.append({'name': 'dag n=3 dependency named twice, all requested', 'harness': (H, 'h_sched'),
+               'params': {'n': 3, 'inputs': ['.'], 'acyclic_only': True, 'dup_deps': True, 'max_deps': 1}, 'split': 8})
     for mode in ('InMemoryBuild', 'Verify'):
         js.append({'name': 'dag n=3 mode=%s' % mode, 'harness': (H, 'h_sched'),
                    'params': {'n': 3, 'inputs': ['F0.txtpp', 'F1.txtpp'], 'acyclic_only': True, 'mode': mode}, 'split': 8})
@@ -311,6 +334,15 @@ def jobs_c03(tier):
                'params': {'n': 2, 'inputs': ['.', '.'], 'acyclic_only': True, 'recursive': False, 'subdir': True}})
     js.append({'name': 'dir scan recursive with subdir, sub-directory also named', 'harness': (H, 'h_sched'),
                'params': {'n': 1, 'inputs': ['.', 'sub'], 'acyclic_only': True, 'recursive': True, 'subdir': True}, 'split': 16})
+    # termination when a task fails while others are still queued / in flight (few threads: back-pressure matters)
+    for n, th in ((3, 1), (4, 1), (4, 2)) if tier == 'quick' else ((3, 1), (4, 1), (4, 2), (5, 1), (5, 2)):
+        js.append({'name': 'termination with a failing task n=%d threads=%d' % (n, th), 'harness': (H, 'h_sched'),
+                   'params': {'n': n, 'inputs': ['.'], 'acyclic_only': True, 'allow_self': False, 'fail_budget': 1, 'max_deps': 0, 'threads': th},
+                   'split': 16})
+    js.append({'name': 'digraph n=2 dependency named twice', 'harness': (H, 'h_sched'),
+               'params': {'n': 2, 'inputs': ['F0.txtpp', 'F1.txtpp'], 'allow_self': True, 'dup_deps': True}})
+    js.append({'name': 'dag n=3 dependency named twice', 'harness': (H, 'h_sched'),
+               'params': {'n': 3, 'inputs': ['F0.txtpp'], 'acyclic_only': True, 'dup_deps': True}, 'split': 8})
     if tier != 'quick':
         js.append({'name': 'dir scan recursive with subdir, dir named twice', 'harness': (H, 'h_sched'),
                    'params': {'n': 1, 'inputs': ['.', 'sub', '.'], 'acyclic_only': True, 'recursive': True, 'subdir': True}, 'split': 16})
@@ -318,7 +350,15 @@ def jobs_c03(tier):
 
 
 def jobs_c05(tier):
-    return jobs_graph(tier, True, 'cyclic')
+    js = jobs_graph(tier, True, 'cyclic')
+    # a dependency list that names the same file twice (two includes of x, `after x` + `include x`)
+    for n, inp in ((2, ['F0.txtpp', 'F1.txtpp']), (2, ['F0.txtpp']), (2, ['.']), (3, ['F0.txtpp']), (3, ['.'])):
+        p = {'n': n, 'inputs': inp, 'allow_self': True, 'dup_deps': True}
+        if n == 3:
+            p['max_deps'] = 2
+        js.append({'name': 'cyclic n=%d inputs=%s dependency named twice' % (n, ','.join(inp)), 'harness': (H, 'h_sched'), 'params': p,
+                   'split': 16 if n >= 3 else 1, 'max_steps': 4_000_000})
+    return js
 
 
 def jobs_c04(tier):
@@ -347,6 +387,7 @@ def replay(native, v):
     d = v['data']
     n = d['n']
     deps = {int(k): val for k, val in d.get('deps', {}).items()}
+    reported = {int(k): val for k, val in d.get('reported', {}).items()}
     inputs = d['inputs']
     cli = ppreplay.cli_path()
     # order in which first passes complete in the trace
@@ -365,7 +406,7 @@ def replay(native, v):
         lines.append('new F%d' % i)
         if i in failed:
             lines.append('-TXTPP#run exit 1')
-        for j in deps.get(i, []):
+        for j in reported.get(i, deps.get(i, [])):
             lines.append('-TXTPP#include F%d' % j)
         if plan.get(('late', i)):
             lines.append('#TXTPP#run sleep %.1f' % plan[('late', i)])   # after the dependencies: delays the final pass only
@@ -440,8 +481,14 @@ def replay(native, v):
     bad = False
     plans = [plan_from_trace(), {}, {i: 0.4 * k for k, i in enumerate(order)}, {i: 0.4 * (len(order) - k) for k, i in enumerate(order)},
              {i: (0.0 if i in finals[:1] else 0.6) for i in range(n)}]
-    for plan in plans:
-        for threads in (4, 1):
+    variants = [(plan, list(inputs)) for plan in plans]
+    if v['msg'].startswith('hang') and failed and all(i in ('.', './') for i in inputs):
+        # the model's schedule completes the failing task first; with few threads the native order is the (unspecified)
+        # directory order, so the same selection is also tried with the files named explicitly, failing one first
+        first = ['F%d.txtpp' % f for f in failed] + ['F%d.txtpp' % i for i in range(n) if i not in failed]
+        variants = [({}, first)] + variants
+    for plan, inputs in variants:
+        for threads in ([d['threads']] if d.get('threads') in (1, 2) else []) + [4, 1]:
             root = tempfile.mkdtemp(prefix='replay-sched-', dir=build.scratch_dir())
             os.makedirs(os.path.join(root, 'sub'))
             if d.get('subdir'):
@@ -456,7 +503,7 @@ def replay(native, v):
                 rc = r.returncode
             except subprocess.TimeoutExpired:
                 rc = 'HANG'
-            att = {'threads': threads, 'sleeps': plan, 'rc': rc, 'secs': round(time.time() - t0, 1)}
+            att = {'threads': threads, 'inputs': list(inputs), 'sleeps': plan, 'rc': rc, 'secs': round(time.time() - t0, 1)}
             req = set()
             for inp in inputs:
                 s = inp
